@@ -18,6 +18,7 @@ BATCHES = {
         ("fault", 8, 100, {}),
         ("poor", 8, 100, {}),
         ("sidauth", 8, 100, {}),
+        ("poorreward", 6, 100, {}),
         # the same drivers through the real ABCI boundary (signed DeliverTx, EndBlock/Commit/BeginBlock of every module in
         # app.go's order): module wiring, ante handler and baseapp rollback are part of what is observed
         ("pay", 2, 40, {"_abci": True}),
@@ -34,6 +35,7 @@ BATCHES = {
         ("fault", 80, 160, {}),
         ("poor", 80, 160, {}),
         ("sidauth", 80, 160, {}),
+        ("poorreward", 60, 160, {}),
         ("pay", 12, 80, {"_abci": True}),
         ("life", 12, 80, {"_abci": True}),
         ("scarce", 8, 80, {"_abci": True}),
@@ -55,38 +57,48 @@ def run_key(tier, seed, plan):
     return h.hexdigest()[:24]
 
 
+def _record_batch(args):
+    binary, outdir, seed, (profile, ntr, nev, cfg) = args
+    cfg = dict(cfg)
+    abci = cfg.pop("_abci", False)
+    d = os.path.join(outdir, profile + ("-abci" if abci else ""))
+    os.makedirs(d, exist_ok=True)
+    done, attempt, halted, wall_s = 0, 0, 0, 0.0
+    while done < ntr:
+        # a HANG ends the process (exit 3): continue the batch in a fresh one
+        cmd = [binary, "drive", "--profile", profile, "--seed", str(seed * 100 + attempt), "--traces", str(ntr - done),
+               "--n", str(nev), "--out", d]
+        if cfg:
+            cmd += ["--cfg", json.dumps(cfg)]
+        if abci:
+            cmd += ["--abci"]
+        rc, out, wall = run(cmd, timeout=3600)
+        wall_s += wall
+        if rc not in (0, 3):
+            raise MachineryError("driver failed rc=%d: %s" % (rc, out[-2000:]))
+        for line in out.splitlines():
+            if line.startswith("DONE"):
+                kv = dict(x.split("=") for x in line.split()[1:])
+                done += int(kv["traces"])
+                halted += int(kv["halted"])
+        attempt += 1
+        if attempt > ntr + 5:
+            raise MachineryError("driver makes no progress")
+    return sorted(os.path.join(d, f) for f in os.listdir(d) if f.endswith(".ndjson")), halted, wall_s
+
+
 def record_traces(binary, outdir, tier, seed):
-    """Run the drivers on the real code. Returns list of trace files and driver stats."""
+    """Run the drivers on the real code (one process per batch, several at a time). Returns trace files and driver stats."""
+    from concurrent.futures import ThreadPoolExecutor
     files = []
     stats = {"traces": 0, "halted": 0, "driver_wall_s": 0.0}
-    for (profile, ntr, nev, cfg) in BATCHES[tier]:
-        cfg = dict(cfg)
-        abci = cfg.pop("_abci", False)
-        d = os.path.join(outdir, profile + ("-abci" if abci else ""))
-        os.makedirs(d, exist_ok=True)
-        done = 0
-        attempt = 0
-        while done < ntr:
-            # a HANG ends the process (exit 3): continue the batch in a fresh one
-            cmd = [binary, "drive", "--profile", profile, "--seed", str(seed * 100 + attempt), "--traces", str(ntr - done),
-                   "--n", str(nev), "--out", d]
-            if cfg:
-                cmd += ["--cfg", json.dumps(cfg)]
-            if abci:
-                cmd += ["--abci"]
-            rc, out, wall = run(cmd, timeout=1800)
-            stats["driver_wall_s"] += wall
-            if rc not in (0, 3):
-                raise MachineryError("driver failed rc=%d: %s" % (rc, out[-2000:]))
-            for line in out.splitlines():
-                if line.startswith("DONE"):
-                    kv = dict(x.split("=") for x in line.split()[1:])
-                    done += int(kv["traces"])
-                    stats["halted"] += int(kv["halted"])
-            attempt += 1
-            if attempt > ntr + 5:
-                raise MachineryError("driver makes no progress")
-        files += sorted(os.path.join(d, f) for f in os.listdir(d) if f.endswith(".ndjson"))
+    t0 = time.time()
+    with ThreadPoolExecutor(max_workers=6) as ex:
+        for fs, halted, wall in ex.map(_record_batch, [(binary, outdir, seed, b) for b in BATCHES[tier]]):
+            files += fs
+            stats["halted"] += halted
+            stats["driver_cpu_s"] = round(stats.get("driver_cpu_s", 0.0) + wall, 1)
+    stats["driver_wall_s"] = round(time.time() - t0, 1)
     stats["traces"] = len(files)
     return files, stats
 
@@ -155,6 +167,23 @@ def generate_behaviours(binary, outdir, tier, seed):
 
 MC_PLAN = {"quick": (6, 600), "thorough": (7, 1500)}   # (MaxEvents, timeout seconds)
 MC_CFG = {"accounts": 8, "dids": 2, "validators": 1, "balance": 100000}
+
+
+def replay_scenarios(binary, outdir):
+    """The scripted histories under scenarios/ (see its README), executed on the real code (keeper level and ABCI)."""
+    src = os.path.join(VERIF, "scenarios")
+    if not os.path.isdir(src):
+        return []
+    files = []
+    for mode in ("keeper", "abci"):
+        d = os.path.join(outdir, mode)
+        os.makedirs(d, exist_ok=True)
+        cmd = [binary, "replay", "--in", src, "--out", d] + (["--abci"] if mode == "abci" else [])
+        rc, out, _ = run(cmd, timeout=900)
+        if rc not in (0, 3):
+            raise MachineryError("scenario replay failed rc=%d: %s" % (rc, out[-1500:]))
+        files += sorted(os.path.join(d, f) for f in os.listdir(d) if f.endswith(".ndjson"))
+    return files
 
 
 def model_check_pay(binary, workdir, tier):
@@ -350,6 +379,10 @@ def family_run(tier, seed, use_cache=True):
         dstats.update(gstats)
         dstats["traces"] += len(gfiles)
         files = files + gfiles
+        sfiles = replay_scenarios(binary, os.path.join(rdir, "scenarios"))
+        dstats["scenarios"] = len(sfiles)
+        dstats["traces"] += len(sfiles)
+        files = files + sfiles
         mc = model_check_pay(binary, os.path.join(rdir, "mc"), tier)
         if mc["counterexample_trace"]:
             files.append(mc["counterexample_trace"])
